@@ -21,7 +21,7 @@ from vplib import Case
 
 PROP = "C15"
 LEVEL = "other"
-IMPORTS = ["Env.TxSpec", "Env.Run"]
+IMPORTS = ["Env.TxSpec", "Env.Run", "Env.TxHashes", "Env.HashRun"]
 CRATE = None  # merged into the main harness crate
 
 # jets covered by the Coq specification, in the order of Env/Run.v `all_jets` (position = code)
@@ -44,7 +44,8 @@ SPEC_JETS = [
 ]
 CODE = {n: i for i, n in enumerate(SPEC_JETS)}
 
-# jets checked against the harness oracle only (SHA-256 compositions; not modelled in Coq)
+# SHA-256 composition jets: specified in Coq (Env/TxHashes.v with the executable SHA-256 of Merkle/Sha256.v)
+# and checked against the harness oracle
 HASH_UNIT = [
     "input_outpoints_hash", "input_amounts_hash", "input_scripts_hash", "input_utxos_hash", "input_sequences_hash",
     "input_annexes_hash", "input_script_sigs_hash", "inputs_hash", "issuance_asset_amounts_hash",
@@ -55,6 +56,19 @@ HASH_UNIT = [
 ]
 HASH_IN = ["input_hash", "input_utxo_hash", "issuance_hash"]
 HASH_OUT = ["output_hash"]
+
+# the order of Env/HashRun.v `all_hjets` (position = hash-jet code)
+HJETS = ["output_amounts_hash", "output_nonces_hash", "output_scripts_hash", "output_range_proofs_hash",
+         "output_surjection_proofs_hash", "outputs_hash", "input_outpoints_hash", "input_amounts_hash", "input_scripts_hash",
+         "input_utxos_hash", "input_sequences_hash", "input_annexes_hash", "input_script_sigs_hash", "inputs_hash",
+         "issuance_asset_amounts_hash", "issuance_token_amounts_hash", "issuance_range_proofs_hash",
+         "issuance_blinding_entropy_hash", "issuances_hash", "tx_hash", "tapleaf_hash", "tappath_hash", "tap_env_hash",
+         "sig_all_hash", "input_hash", "input_utxo_hash", "issuance_hash", "output_hash"]
+HCODE = {n: i for i, n in enumerate(HJETS)}
+UINT63_PRIMS = ["int", "add", "sub", "land", "lor", "lxor", "lsl", "lsr", "eqb",
+                "Uint63.int", "Uint63.add", "Uint63.sub", "Uint63.land", "Uint63.lor", "Uint63.lxor", "Uint63.lsl",
+                "Uint63.lsr", "Uint63.eqb", "PrimInt63.int", "PrimInt63.add", "PrimInt63.sub", "PrimInt63.land",
+                "PrimInt63.lor", "PrimInt63.lxor", "PrimInt63.lsl", "PrimInt63.lsr", "PrimInt63.eqb"]
 
 UNIT_SPEC = SPEC_JETS[:15] + [j for j in SPEC_JETS if j.startswith("current_") and j != "current_index"]
 IN_INDEXED = SPEC_JETS[20:39]
@@ -159,12 +173,20 @@ def hexw(v, nbytes):
     return "%0*x" % (2 * nbytes, v)
 
 
-def gen_env(rng, k, tier):
+def gen_env(rng, k, tier, forced=None):
     n_in = [0, 1, 2, 3, 4][k % 5] if rng.chance(3, 4) else rng.below(5)
     n_out = [0, 1, 2, 3, 4][(k // 5) % 5] if rng.chance(3, 4) else rng.below(5)
     fee_heavy = rng.chance(1, 6)
     ins = [gen_input(rng, k * 4 + j) for j in range(n_in)]
     outs = [gen_output(rng, k * 4 + j, fee_heavy) for j in range(n_out)]
+    if forced is not None:
+        fi, fo = forced
+        for d, f in zip(ins, fi):
+            d.update(f)
+        for d, f in zip(outs, fo):
+            d.update(f)
+        ins, outs = ins[:len(fi)], outs[:len(fo)]
+        n_in, n_out = len(ins), len(outs)
     if rng.chance(1, 8):   # all inputs final
         for i in ins:
             i["seq"] = 0xFFFFFFFF
@@ -218,15 +240,49 @@ def gen_env(rng, k, tier):
     return line, meta
 
 
-def gen_cases(rng, tier):
+def targeted_envs(rng, tier):
+    """fixed structural classes that every run must contain (the random stream reaches them only with some
+    probability): every nonce class at every output position next to every asset/value class; new issuances
+    and reissuances with every amount/keys class and two range proofs of different lengths"""
+    out = []
+    k = 1000
+    for rot in range(3):
+        fo = [{"asset": "nec"[(j + rot) % 3] + ("1" if "nec"[(j + rot) % 3] == "e" else ""),
+               "value": "nec"[(j + 2 * rot) % 3] + ("1000" if "nec"[(j + 2 * rot) % 3] == "e" else ""),
+               "nonce": "nec"[(j + rot + 1) % 3]} for j in range(4)]
+        fo[3]["nonce"] = "e"
+        out.append((k, ([{}, {}][:1 + rot % 2], fo)))
+        k += 1
+    for (iss, pairs) in ((1, ["cc", "ec", "cn", "nc"]), (2, ["cc", "ce", "ec", "cn"]), (1, ["ce", "ee", "ne", "en"])):
+        fi = [{"iss": iss, "amt": ak[0], "keys": ak[1], "arp": [100, 66, 200, 65][j], "krp": [66, 100, 65, 200][j], "pegin": 0}
+              for j, ak in enumerate(pairs)]
+        out.append((k, (fi, [{}, {}])))
+        k += 1
     cases = []
-    n = 144 if tier == "quick" else 1600
+    for (kk, forced) in out:
+        need_in, need_out = len(forced[0]), len(forced[1])
+        # an index whose cycled counts are large enough
+        r = rng.fork("tgt%d" % kk)
+        while True:
+            line, meta = gen_env(r.fork("try"), 24, tier, forced=None)
+            if len(meta["ins"]) >= need_in and len(meta["outs"]) >= need_out:
+                break
+            r = r.fork("again")
+        line, meta = gen_env(r.fork("try"), 24, tier, forced=forced)
+        cases.append(Case("t%d" % kk, "env", line, None, meta))
+    return cases
+
+
+def gen_cases(rng, tier):
+    cases = targeted_envs(rng.fork("targeted"), tier)
+    n = 138 if tier == "quick" else 1600
     for k in range(n):
         line, meta = gen_env(rng.fork("env%d" % k), k, tier)
         cases.append(Case("e%d" % k, "env", line, None, meta))
     # the jet table: names, source and target types as the implementation reports them
-    cases.append(Case("j0", "jets", " ".join(SPEC_JETS), "run_jets [%s]" % "; ".join(str(i) for i in range(len(SPEC_JETS))),
-                      {"jets": SPEC_JETS}))
+    cases.append(Case("j0", "jets", " ".join(SPEC_JETS + HJETS),
+                      "run_jets2 [%s] [%s]" % ("; ".join(str(i) for i in range(len(SPEC_JETS))), "; ".join(str(i) for i in range(len(HJETS)))),
+                      {"jets": SPEC_JETS + HJETS}))
     return cases
 
 
@@ -347,13 +403,19 @@ def coq_tx(tx):
 
 def coq_expr(parsed):
     qs = [(CODE[j], 0 if a is None else a) for (j, a, _r, _o) in parsed["results"] if j in CODE]
-    return "run_env %s [%s]" % (coq_tx(parsed["tx"]), "; ".join("(%d, %s)" % (q[0], big(q[1])) for q in qs))
+    hqs = [(HCODE[j], 0 if a is None else a) for (j, a, _r, _o) in parsed["results"] if j in HCODE]
+    return "run_env2 %s [%s] [%s]" % (coq_tx(parsed["tx"]), "; ".join("(%d, %s)" % (q[0], big(q[1])) for q in qs),
+                                      "; ".join("(%d, %s)" % (q[0], big(q[1])) for q in hqs))
 
 
 def impl_spec_part(parsed):
     out = []
     for (j, _a, r, _o) in parsed["results"]:
         if j in CODE:
+            out += list(r)
+    out.append(55555)
+    for (j, _a, r, _o) in parsed["results"]:
+        if j in HCODE:
             out += list(r)
     return out
 
@@ -515,7 +577,8 @@ def valgrind_stage(rep, binary, cases, n):
 
 
 def run(rep, tier, rng):
-    proof_ok = vplib.proof_stage(rep, "Props/C15.v", extra_targets=["Env/Run.vo"], translators=())
+    proof_ok = vplib.proof_stage(rep, "Props/C15.v", extra_targets=["Env/Run.vo", "Env/HashRun.vo"], allowed_axioms=UINT63_PRIMS,
+                                 translators=())
     binary, out = vplib.harness_build("debug", crate=CRATE)
     if binary is None:
         raise vplib.Infra("harness build failed:\n" + out[-3000:])
@@ -553,11 +616,12 @@ def run(rep, tier, rng):
     pfail, mism = vplib.decide(rep, cases, impl, model, prop_check, finding_match, nontrivial,
                                what="correspondence Env/TxSpec.v (jet_spec) vs one-jet programs on ElementsEnv")
     nq = sum(len(c.meta["queries"]) for c in cases if c.kind == "env")
-    nspec = sum(1 for c in cases if c.kind == "env" for (j, _a) in c.meta["queries"] if j in CODE)
+    nspec = sum(1 for c in cases if c.kind == "env" for (j, _a) in c.meta["queries"] if j in CODE or j in HCODE)
     rep.coverage["jet_executions"] = nq
     rep.coverage["jet_executions_compared_with_coq_spec"] = nspec
-    rep.coverage["jets_specified_in_coq"] = len(SPEC_JETS)
-    rep.coverage["jets_oracle_only"] = len(HASH_UNIT + HASH_IN + HASH_OUT)
+    rep.coverage["jets_specified_in_coq"] = len(SPEC_JETS) + len(HJETS)
+    rep.coverage["hash_jets_specified_in_coq"] = len(HJETS)
+    rep.coverage["jets_oracle_only"] = len([j for j in HASH_UNIT + HASH_IN + HASH_OUT if j not in HCODE])
     rep.coverage["histogram"] = histogram(cases)
     if tier == "thorough":
         valgrind_stage(rep, binary, cases, 150)
@@ -572,14 +636,22 @@ def run(rep, tier, rng):
         "implementation's jet table on every run (case kind 'jets').  COMPARISON (not a proof): the Coq specification evaluated by "
         "vm_compute on the abstract transaction that the harness read from the Rust `elements` structures vs the output of "
         "one-jet programs run by BitMachine::exec on ElementsEnv::new (Rust marshalling in c_env.rs + C env.c/elementsJets.c); "
-        "and every jet output (including %d SHA-256 composition jets that are not modelled in Coq) vs an oracle in the harness "
+        "the same for the %d SHA-256 composition jets (input/output/issuance hashes, tx_hash, tap hashes, sig_all_hash, the indexed "
+        "input_hash / input_utxo_hash / issuance_hash / output_hash), specified in Env/TxHashes.v over the same abstract transaction "
+        "with an executable SHA-256 (theorems: typedness; sig_all_hash is a function of the committed view, independence of the "
+        "transaction id, scriptSigs, unflagged pegin data, unused range proofs, output extras); "
+        "and every jet output vs an oracle in the harness "
         "written against the elements crate API; the four signature hashes (CTxEnv::sighash_all, sig_all_hash jet, own "
         "recomputation, SighashCache::simplicity_spend_signature_hash) must coincide.  SHA-256, secp256k1 point parsing, pointer "
         "lifetimes, null conventions at the FFI boundary and Drop of the malloc'd C objects are outside the model; the last "
         "three are exercised by the comparison and, in the thorough tier, by running the harness under valgrind (a test)."
         % (len(SPEC_JETS), len(HASH_UNIT + HASH_IN + HASH_OUT)))
     rep.coverage["trusted_base"] = vplib.GENERIC_TRUSTED + [
-        "Env/TxSpec.v written by hand from c_env.rs, env.c, elementsJets.c; hashes and derived identifiers are data supplied by the harness",
+        "Env/TxSpec.v written by hand from c_env.rs, env.c, elementsJets.c; hashes of scripts / scriptSigs / annexes / proofs and derived "
+        "identifiers (issuance entropy, asset and token ids) are data supplied by the harness",
+        "Env/TxHashes.v written by hand from env.c (mallocTransaction, mallocTapEnv), txEnv.c, ops.c, elementsJets.c: the 28 SHA-256 "
+        "composition jets computed with Merkle/Sha256.v (Uint63 primitives int add sub land lor lxor lsl lsr eqb, listed by Print Assumptions "
+        "for the theorems that mention the digests)",
         "harness_env/src/env.rs: generator of transactions, abstraction of the elements structures, oracle (incl. own SHA-256 composition of the signature hash using bitcoin_hashes)",
         "the `elements`, `bitcoin_hashes`, `secp256k1-zkp` crates (construction and accessors of the supplied data)",
         "ElementsEnv::new requires one spent output per input; environments with a different number of utxos are not generated",
